@@ -546,3 +546,25 @@ def check_visitor(M: Model, ds: MDS) -> Tuple[str, Any]:
     except Raised as e:
         return "raise", getattr(e.exc, "code", None)
     return "ok", r
+
+
+def join_visitor(M: Model, op: str, operands: List[Tuple[str, MDS, Optional[str]]], using: Optional[List[str]] = None) -> Tuple[str, Any]:
+    """StructureVisitor._build_join_structure on the same abstract operands as join_sql"""
+    f = M.P.func(f"{SV}._build_join_structure")
+    by_name = {n: d for n, d, _a in operands}
+    clauses: List[Any] = []
+    for n, _d, a in operands:
+        v = MNode("VarID", value=n)
+        clauses.append(MNode("BinOp", left=v, op="as", right=MNode("Identifier", value=a)) if a else v)
+    node = MNode("JoinOp", op=op, clauses=clauses, using=using, nvl=None, isLast=True)
+    ext: Dict[str, Callable[..., Any]] = {
+        "self._get_dataset_structure": lambda n: by_name[n.value], "self._resolve_name": lambda x: getattr(x, "value", x), "self._get_output_dataset": lambda: None,
+        "merged_viral_attribute_names": lambda *a: set(), "isinstance": _isinstance, "Dataset": M.mk_dataset,
+        "self._make_comp": lambda name, dt=None, role=None, nullable=True, **kw: MComp(name, role if role is not None else M.roles["MEASURE"], dt, nullable),
+    }
+    it = Interp(M.P, externals=ext, max_steps=200000)
+    try:
+        res = it.call(f, {"self": MSelf(), "node": node})
+    except Raised as r:
+        return "raise", getattr(r.exc, "code", None) or getattr(r.exc, "kind", None)
+    return "ok", res
